@@ -56,6 +56,33 @@ fn adjust(s: &mut TypeSpec, d: &mut Dna) -> bool {
             v.disc = None;
         }
     }
+    // discriminant stress: every primitive repr with explicit discriminants at and around the edges of its range,
+    // negative ones for the signed types, in any order
+    if s.variants.len() >= 2 && s.variants.len() <= 8 && d.chance(30) {
+        let tys = ["i8", "i16", "i32", "i64", "i128", "isize", "u8", "u16", "u32", "u64", "u128", "usize"];
+        let r = tys[d.pick(tys.len())];
+        let (lo, hi) = crate::gen::int_range(r);
+        let has_fields = s.variants.iter().any(|v| v.shape != Shape::Unit);
+        let with_c = has_fields && d.chance(20);
+        s.repr = Some(if with_c { format!("C, {r}") } else { r.to_string() });
+        // `repr(C, ..)` enums with discriminants beyond C's int draw a future-compatibility warning about the definition itself
+        let (lo, hi) = if with_c { (lo.max(i32::MIN as i128), hi.min(i32::MAX as i128)) } else { (lo, hi) };
+        let nv = s.variants.len() as i128;
+        let mut cands: Vec<i128> = vec![lo, lo + 1, lo + nv, -129, -128, -127, -5, -2, -1, 0, 1, 2, 100, 126, 127, 128, 255, 256, 32767, 65535, hi - nv - 1, hi - nv, hi / 2];
+        cands.retain(|c| *c >= lo && *c <= hi - nv);
+        for v in s.variants.iter_mut() {
+            v.disc = if d.chance(65) { Some(*d.choose(&cands)) } else { None };
+        }
+        // validate with the language's rule; drop the explicit values if they collide or overflow
+        let ds = s.discriminants();
+        let mut seen = std::collections::BTreeSet::new();
+        let ok = ds.iter().all(|x| *x >= lo && *x <= hi && seen.insert(*x));
+        if !ok {
+            for v in s.variants.iter_mut() {
+                v.disc = None;
+            }
+        }
+    }
     true
 }
 
@@ -140,6 +167,12 @@ pub fn render(s: &TypeSpec) -> Option<Rendered> {
     }
     if nonmono {
         classes.push("non_monotonic_discriminants".to_string());
+    }
+    if discs.iter().any(|d| *d < 0) {
+        classes.push("negative_discriminants".to_string());
+    }
+    if s.variants.iter().any(|v| v.disc.is_some()) {
+        classes.push("explicit_discriminants".to_string());
     }
     if nv == 1 {
         classes.push("single_variant".to_string());
